@@ -11,7 +11,7 @@ func init() {
 	verifHarnesses["HarnessC17"] = HarnessC17
 }
 
-// HarnessC17: a = {client: 0 tunnel (pushInbound directly), 2 group layer (serveGroupInbound on a plain
+// HarnessC17: a = {client: 0 tunnel (pushInbound directly; 8: the same from a used-up overflow queue), 2 group layer (serveGroupInbound on a plain
 // channel), 3 tunnel through handleTunnelReq (UDP), 4 the same in TCP mode; k telegrams; consumer:
 // 0 always waiting, 1 absent during the burst, 2 takes one telegram then stalls, 3 takes one
 // telegram, stalls and resumes in the middle of the burst}. The server side accepts m1..mk in
@@ -23,8 +23,13 @@ func HarnessC17(a []int) {
 	var events <-chan GroupEvent
 	var push func(cemi.Message)
 	switch client {
-	case 0:
+	case 0, 8:
 		conn := vTunnel(newVSock(), false)
+		if client == 8 {
+			// the queue as it is left behind by telegrams parked and delivered earlier: drained by
+			// re-slicing, i.e. empty, not nil, no spare capacity (a state every longer history reaches)
+			conn.overflow = make([]cemi.Message, 0, 0)
+		}
 		inbound, push = conn.inbound, conn.pushInbound
 	case 3, 4:
 		conn := vTunnel(newVSock(), client == 4)
